@@ -101,7 +101,15 @@ class _Parser:
                 assert token is not None
                 state.feed_token(token)
 
-            end_token = Token.new_borrow_pos('$END', '', token) if token else Token('$END', '', 0, 1, 1)
+            if token:
+                end_token = Token.new_borrow_pos('$END', '', token)
+            else:
+                # No token at all: report the position the lexer stopped at (not 0 when the input is a TextSlice)
+                line_ctr = getattr(getattr(state.lexer, 'state', None), 'line_ctr', None)
+                if line_ctr is None:
+                    end_token = Token('$END', '', 0, 1, 1)
+                else:
+                    end_token = Token('$END', '', line_ctr.char_pos, line_ctr.line, line_ctr.column)
             return state.feed_token(end_token, True)
         except UnexpectedInput as e:
             try:
